@@ -58,9 +58,11 @@ static int *g_freeslots;
 static int g_nfree;
 static int g_quarantine[512];
 static int g_nquar, g_quar_head;
+static int g_qlen = 512; /* 0: a freed unit object is handed out again at once (LIFO) */
 static pthread_spinlock_t g_arena_lock;
 static int g_colliding;
 
+static int c_scen_quarantine, c_scen_reuse, c_us_bulk_transfer, c_us_bulk_run;
 static int c_cases, c_units, c_creates, c_frees, c_pushes, c_pops, c_map_checks, c_pool_changes, c_revives,
     c_by_policy[3], c_legacy_units, c_newapi_units, c_migrations, c_distinct;
 
@@ -92,6 +94,11 @@ static uunit_t *arena_alloc(void)
 static void arena_free(uunit_t *u)
 {
     pthread_spin_lock(&g_arena_lock);
+    if (g_qlen == 0) {
+        g_freeslots[g_nfree++] = u->slot;
+        pthread_spin_unlock(&g_arena_lock);
+        return;
+    }
     /* quarantine: a freed object is not handed out again for a while so that a
      * late use by the runtime meets MAGIC_DEAD */
     if (g_nquar == 512) {
@@ -148,9 +155,19 @@ static void up_free_unit(upool_t *p, ABT_unit unit)
         vrt_violation("upool:free-while-in-pool", "free_unit for a unit that is still queued in the pool");
     u->magic = MAGIC_DEAD;
     __atomic_store_n(&u->state, US_FREED, __ATOMIC_SEQ_CST);
-    __atomic_fetch_add(&p->frees, 1, __ATOMIC_RELAXED);
+    uint64_t nfrees = __atomic_fetch_add(&p->frees, 1, __ATOMIC_RELAXED);
     vrt_count(c_frees, 1);
     arena_free(u);
+    if (g_qlen == 0) {
+        /* the object can be handed out again from now on; a user callback may
+         * well take its time before it returns */
+        unsigned h = (unsigned)vrt_hash64((uint64_t)(uintptr_t)u + nfrees);
+        if ((h & 3) == 0)
+            sched_yield();
+        else if ((h & 3) == 1)
+            for (volatile unsigned i = 0; i < 200 + (h >> 8) % 2000; i++)
+                ;
+    }
 }
 static void up_push(upool_t *p, ABT_unit unit)
 {
@@ -241,6 +258,24 @@ static size_t n_get_size(ABT_pool pool)
 {
     return up_size(up_of(pool));
 }
+static void n_pop_many(ABT_pool pool, ABT_thread *threads, size_t max_threads, size_t *num_popped, ABT_pool_context ctx)
+{
+    (void)ctx;
+    size_t n = 0;
+    while (n < max_threads) {
+        uunit_t *u = up_pop(up_of(pool));
+        if (!u)
+            break;
+        threads[n++] = u->thread;
+    }
+    *num_popped = n;
+}
+static void n_push_many(ABT_pool pool, const ABT_unit *units, size_t num_units, ABT_pool_context ctx)
+{
+    (void)ctx;
+    for (size_t i = 0; i < num_units; i++)
+        up_push(up_of(pool), units[i]);
+}
 
 /* ---- legacy API (ABT_pool_def): no pool argument for unit functions ---- */
 #define LEGACY(N)                                                                                                      \
@@ -298,6 +333,12 @@ static void make_pools(vrt_rng *r)
             ABT_pool_user_def def;
             VRT_ABT(ABT_pool_user_def_create(n_create_unit, n_free_unit, n_is_empty, n_pop, n_push, &def));
             VRT_ABT(ABT_pool_user_def_set_get_size(def, n_get_size));
+            if (i == 1) {
+                /* pool 1 has its own many-operations, pool 0 relies on the
+                 * runtime's fall-back to single operations */
+                VRT_ABT(ABT_pool_user_def_set_pop_many(def, n_pop_many));
+                VRT_ABT(ABT_pool_user_def_set_push_many(def, n_push_many));
+            }
             VRT_ABT(ABT_pool_create(def, ABT_POOL_CONFIG_NULL, &p->pool));
             VRT_ABT(ABT_pool_user_def_free(&def));
             VRT_ABT(ABT_pool_set_data(p->pool, p));
@@ -480,6 +521,17 @@ typedef struct {
     int n;
     ABT_pool pools[NUPOOLS + 3];
 } usched_t;
+/* ABT_pool_push_threads/pop_threads need the pool's many-operations: built-in
+ * pools and user pool 1 have them */
+static int pool_has_many(ABT_pool p)
+{
+    if (p == g_up[1].pool)
+        return 1;
+    for (int i = 0; i < NUPOOLS; i++)
+        if (p == g_up[i].pool)
+            return 0;
+    return 1;
+}
 static int us_init(ABT_sched sched, ABT_sched_config cfg)
 {
     (void)cfg;
@@ -499,8 +551,26 @@ static void us_run(ABT_sched sched)
         int ran = 0;
         int i = (int)vrt_range(&d->r, (uint64_t)d->n);
         int j = (int)vrt_range(&d->r, (uint64_t)d->n);
-        unsigned how = (unsigned)vrt_range(&d->r, 16);
-        if (how < 8) {
+        unsigned how = (unsigned)vrt_range(&d->r, 20);
+        if (how >= 16) {
+            /* bulk: pop up to 4, then push them to another pool in one call
+             * or run them */
+            ABT_thread ths[4];
+            size_t got = 0;
+            if (pool_has_many(d->pools[i]))
+                VRT_ABT(ABT_pool_pop_threads(d->pools[i], ths, 4, &got));
+            if (got > 0) {
+                ran = 1;
+                if (how < 18 && pool_has_many(d->pools[j])) {
+                    VRT_ABT(ABT_pool_push_threads(d->pools[j], ths, got));
+                    vrt_count(c_us_bulk_transfer, got);
+                } else {
+                    for (size_t k = 0; k < got; k++)
+                        VRT_ABT(ABT_self_schedule(ths[k], ABT_POOL_NULL));
+                    vrt_count(c_us_bulk_run, got);
+                }
+            }
+        } else if (how < 8) {
             ABT_thread th = ABT_THREAD_NULL;
             ABT_pool_pop_thread(d->pools[i], &th);
             if (th != ABT_THREAD_NULL) {
@@ -570,6 +640,10 @@ int main(int argc, char **argv)
     c_pool_changes = vrt_counter("set_associated_pool_calls");
     c_migrations = vrt_counter("migration_requests");
     c_revives = vrt_counter("revives");
+    c_scen_quarantine = vrt_counter("scenarios_with_unit_quarantine");
+    c_scen_reuse = vrt_counter("scenarios_with_immediate_unit_address_reuse");
+    c_us_bulk_transfer = vrt_counter("user_sched_bulk_pushed_to_other_pool");
+    c_us_bulk_run = vrt_counter("user_sched_ran_bulk_popped_threads");
     c_us_run_thread = vrt_counter("user_sched_ran_popped_thread");
     c_us_run_unit = vrt_counter("user_sched_ran_popped_unit");
     c_us_run_reassoc = vrt_counter("user_sched_ran_after_reassociating_pool");
@@ -593,6 +667,8 @@ int main(int argc, char **argv)
     pthread_spin_init(&g_arena_lock, 0);
     for (int s = 0; s < scen && vrt_num_violations() == 0; s++) {
         g_colliding = (int)vrt_range(&r, 3) != 0;
+        g_qlen = vrt_range(&r, 2) ? 512 : 0;
+        vrt_count(g_qlen ? c_scen_quarantine : c_scen_reuse, 1);
         g_nfree = 0;
         g_nquar = 0;
         g_quar_head = 0;
@@ -708,7 +784,7 @@ int main(int argc, char **argv)
                        "policies %d,%d,%d,%d), %d work units, %s unit addresses, %llu unit objects created", s, nes,
                        g_up[0].policy, g_up[1].policy, g_up[2].policy, g_up[3].policy, n,
                        g_colliding ? "hash-colliding (3 buckets)" : "spread", (unsigned long long)cr);
-        vrt_signature_add("es%d,us%d,col%d,p%d%d%d%d", nes, nus, g_colliding, g_up[0].policy, g_up[1].policy, g_up[2].policy, g_up[3].policy);
+        vrt_signature_add("es%d,us%d,col%d,q%d,p%d%d%d%d", nes, nus, g_colliding, g_qlen != 0, g_up[0].policy, g_up[1].policy, g_up[2].policy, g_up[3].policy);
         vrt_count(c_units, (uint64_t)n);
         vrt_count(c_cases, 1);
         (void)fr;
